@@ -292,3 +292,21 @@ Proof. vm_compute. repeat split; reflexivity. Qed.
     semantics of Model/FileOps.v.  Not modelled, hence not covered: other processes changing the
     files during the call, crash consistency.  MoveFile with a source path that is itself a
     symbolic link is outside the property's quantifier (rename moves the link). *)
+
+(** directory-like destination spellings ("dir/" ...; Check/C18.v [spec_dirlike]): accepted are the model's failure with the
+    source intact, a copy into another directory under the source's base name, a move into it; rejected are a "successful"
+    CopyFile into the source's own directory that leaves the source changed, and a MoveFile there after which the file is gone.
+    Arguments: variant op modelkind otherdev srcmissing nonempty ok srcpresent srcorig dstgiven third dstinside selfparent srcsym *)
+Example C18_dirlike_spellings :
+  map (fun f => f 0) [
+    (fun v => dirlike_ok_for v 0 6 0 0 1 0 1 1 0 1 1 1 0);   (* CopyFile(dir/f, dir/) refused, source intact *)
+    (fun v => dirlike_ok_for v 1 6 1 0 1 0 1 1 0 1 0 0 0);   (* MoveFile(f, other/) refused across devices *)
+    (fun v => dirlike_ok_for v 1 7 0 0 1 0 1 1 0 1 0 0 0);   (* MoveFile(f, nodir/) refused *)
+    (fun v => dirlike_ok_for v 0 6 0 0 1 1 1 1 0 1 1 0 0);   (* CopyFile(f, other/) = nil, other/f complete *)
+    (fun v => dirlike_ok_for v 1 6 0 0 1 1 0 0 0 1 1 0 0);   (* MoveFile(f, other/) = nil, other/f complete, f gone *)
+    (fun v => dirlike_ok_for v 0 6 0 0 1 1 1 0 0 1 0 1 0);   (* CopyFile(dir/f, dir/) = nil, f truncated: content lost *)
+    (fun v => dirlike_ok_for v 1 6 0 0 1 1 0 0 0 1 0 1 0);   (* MoveFile(dir/f, dir/) = nil, f gone *)
+    (fun v => dirlike_ok_for v 1 6 0 0 1 1 0 0 0 1 0 1 1);   (* the same with a symbolic link as source path *)
+    (fun v => dirlike_ok_for v 0 6 0 0 1 0 1 0 0 1 0 1 0)]   (* error, but the source is damaged *)
+  = [true; true; true; true; true; false; false; false; false].
+Proof. vm_compute. reflexivity. Qed.
